@@ -72,7 +72,24 @@ class Matcher:
     def site(self, it):
         return '%s:%s' % (it.where, self.base)
 
-    def match(self, W, R, widx=None, ridx=None):
+    def element_in_order(self, w, term, widx, wlo):
+        """inside a writer loop the k-th iteration must emit element k of the member it walks over (the reader
+        restores the elements in the order of the text): `out << generators_.back()` n times has the right
+        count and the right type but stores one generator n times"""
+        if widx is None or not (isinstance(term, tuple) and term and term[0] == 'sel'):
+            return True
+        if not T.occurs(term[1], TH):
+            return True
+        want = widx if wlo in (None, ZERO) else sub(widx, wlo)
+        if T.canon(term[2]) == T.canon(want):
+            return True
+        self.ctx.violation('i.element_order', self.site(w), 'iteration %s of the writer loop does not emit element %s of '
+                           '%s but element %s: the reader restores the elements in text order'
+                           % (T.pretty(widx), T.pretty(want), wobj_label(term) or T.pretty(term[1])[:60],
+                              T.pretty(term[2])[:80]), {'writer_item': repr(w)})
+        return False
+
+    def match(self, W, R, widx=None, ridx=None, wlo=None):
         ctx = self.ctx
         Wd, Rd = data(W), data(R)
         n = max(len(Wd), len(Rd))
@@ -97,6 +114,8 @@ class Matcher:
             if w.k == 'field' and r.k in ('read', 'getline'):
                 if w.istext != (r.k == 'getline'):
                     ctx.violation('i.sequence', self.site(w), 'text / token mismatch: writer %r, reader %r' % (w, r))
+                    continue
+                if not self.element_in_order(w, w.term, widx, wlo):
                     continue
                 if r.k == 'read' and r.member is None:
                     self.bind[('local', r.local)] = w.term
@@ -129,6 +148,8 @@ class Matcher:
                         continue
                 ctx.holds('i.sequence', self.site(w), 'member %s written and read at the same position, same type' % wl)
             elif w.k == 'sub' and r.k == 'sub':
+                if not self.element_in_order(w, w.obj, widx, wlo):
+                    continue
                 wl = wobj_label(w.obj)
                 rl = r.target
                 if rl is not None:
@@ -165,7 +186,7 @@ class Matcher:
                                   'extracts %s' % (T.pretty(cw)[:120], T.pretty(cr)[:160]))
                     continue
                 ctx.holds('i.loop_counts', self.site(w), 'loop counts agree (%s)' % how)
-                self.match(w.body, r.body, w.idx, r.idx)
+                self.match(w.body, r.body, w.idx, r.idx, w.lo)
             else:
                 ctx.violation('i.sequence', self.site(w), 'writer item %r faces reader item %r' % (w, r))
 
@@ -198,6 +219,8 @@ def starts_with_text(cls, grams, depth=0):
 
 def check(ctx):
     p = ctx.prog
+    # calls through base-class references reach the derived implementation
+    no_hiding_in_hierarchy(ctx, 'dyn.overrides_are_virtual')
     ctx.assume('operator<< / operator>> of the standard engines and of arithmetic types round-trip '
                'when floating-point values are written in scientific notation with max_digits10 '
                'significant digits (standard guarantee); names contain no newline (property premise)')
